@@ -117,6 +117,35 @@ def fresnelSubTurns (p : Params) (ix iy : Nat) : List Rat :=
 def angularSubRadicands (p : Params) (ix iy : Nat) : List Rat :=
   (subFreqs p ix iy).map fun (a, b) => radicand p a b
 
+/-! ### impulse-response branch
+
+`transfer_function = FastFourierTransform(enlarged_grid).forward(evaluate_supersampled(impulse_response,
+enlarged_grid, s))`, `enlarged_grid = make_fft_grid(internal_grid)`: spacing `δ`, `M` samples, centred
+(`x_j = (j - ⌊M/2⌋)·δ`).  So `D(ν_i) = δx δy · Σ_j mean_sub h(x_j + dither·δ) · exp(-2πi (i-⌊M/2⌋)(j-⌊M/2⌋)/M)`.
+
+* Fresnel `h = exp(i k z)/(i λ z) · exp(i k r²/(2z))`  ⇒  amplitude `1/(λ z)`, turns `-1/4 + n z/λ + n r²/(2 λ z)`;
+* angular `h = cosθ/(2π) · exp(i k R) (1/R² - i k/R)`, `R² = r² + z²` (the model returns `R²`). -/
+
+/-- Coordinate of enlarged-grid index `j` displaced by dither `d`. -/
+def xCoord (δ : Rat) (M j : Nat) (d : Rat) : Rat := ((j : Rat) - ((M / 2 : Nat) : Rat) + d) * δ
+
+def fresnelIrAmp (p : Params) : Rat := 1 / (p.lam * p.z)
+
+def fresnelIrTurns (p : Params) (x y : Rat) : Rat :=
+  -(1/4 : Rat) + p.n * p.z / p.lam + p.n * (x * x + y * y) / (2 * p.lam * p.z)
+
+/-- Sub-sample points of row `jy` of the enlarged grid: for every `jx`, all `s²` dithers. -/
+def irRowPoints (p : Params) (jy : Nat) : List (Rat × Rat) :=
+  (List.range (mx p)).flatMap fun jx =>
+    (dithers p.s).flatMap fun dy => (dithers p.s).map fun dx =>
+      (xCoord p.dx (mx p) jx dx, xCoord p.dy (my p) jy dy)
+
+def fresnelIrRow (p : Params) (jy : Nat) : List Rat :=
+  (irRowPoints p jy).map fun (x, y) => frac (fresnelIrTurns p x y)
+
+def angularIrRow (p : Params) (jy : Nat) : List Rat :=
+  (irRowPoints p jy).map fun (x, y) => x * x + y * y + p.z * p.z
+
 /-- Distance that multiplies `|k_z|` in the decay `exp(-|k_z|·…)` of an evanescent component.
 Repaired code (finding D30): `k_z` is conjugated for negative distances, so evanescent waves decay with `|z|`
 in either direction and `D_{-z} = conj D_z` holds at every frequency. -/
